@@ -131,3 +131,23 @@ package influxql
 //@   store map[interface{}]bool
 //@     requires [numeric_member_only_from_a_numeric_token] tagis(key, "float64") ==> (tok == INTEGER || tok == NUMBER)
 //@     requires [other_tokens_stay_strings] !(tok == INTEGER || tok == NUMBER) ==> tagis(key, "string")
+
+// ---- literals keep their type through print and re-parse: the text of a float literal must not be readable as
+// an integer. Below the int range the shortest 'f' text is used and gets ".0" appended unless it already contains a
+// point (or is one of the non-finite spellings); above it the text is printed with one decimal.
+//@ func (*NumberLiteral).RenderBytes
+//@   requires l != nil && buf != nil
+//@   ghost shortest bool = false
+//@   ghost looked bool = false
+//@   ghost hasPoint bool = false
+//@   ghost suffixed bool = false
+//@   call strconv.FormatFloat
+//@     requires [float_text_with_a_decimal_or_the_shortest_text] (arg0 == l.Val || isNaN(arg0)) && arg1 == 102 && (arg2 == 1 || arg2 == -1) && arg3 == 64
+//@     set shortest = (arg2 == -1)
+//@   call strings.ContainsAny
+//@     requires [looks_for_a_point_in_the_printed_text] arg0 == text && arg1 == ".eEnN"
+//@     set looked = true
+//@     set hasPoint = ret0
+//@   call (*Buffer).WriteString
+//@     set suffixed = suffixed || arg0 == ".0"
+//@   ensures [integral_float_is_not_printed_like_an_integer] shortest ==> looked && (hasPoint || suffixed)
